@@ -56,8 +56,11 @@ class SegWorld(World):
             self.log('tx-other', wire=wire)
             return
         name = [bytes(c) for c in p.name]
+        fs = self.scenario.get('fetch_from_seg')
         if name == self.prefix or (self.nseg == 0 and name == self.obj_name):
             key = 'disc'
+        elif fs is not None and p.can_be_prefix and name == self.obj_name + [seg_comp(fs)]:
+            key = 'disc'        # the caller named one segment of the object: that request plays the part of discovery
         elif name[:-1] == self.obj_name and name[-1][0] == tlvref.T_SEGMENT:
             key = tlvref.dec_nni(name[-1][2:])
         else:
@@ -78,6 +81,8 @@ class SegWorld(World):
                 self.violate('C19', 'discovery-format', 'segment_fetcher', 'cbp', 'discovery Interest lacks CanBePrefix')
             pattern = self.scenario['loss'].get('disc', [])
             target = self.scenario['discovery']            # segment index answering discovery, or 'unseg'
+            if fs is not None and name != self.prefix:
+                target = fs
         else:
             pattern = self.scenario['loss'].get(str(key), [])
             target = key
@@ -169,8 +174,11 @@ class SegWorld(World):
             k = tlvref.dec_nni(last[2:]) if last[0] == tlvref.T_SEGMENT else 0
             world.log('validate', seg=k)
             return k not in invalid
+        fetch_name = '/' + '/'.join(sc['prefix'])
+        if sc.get('fetch_from_seg') is not None:
+            fetch_name = enc.Name.to_bytes(self.obj_name + [seg_comp(sc['fetch_from_seg'])])
         try:
-            async for content in segment_fetcher(self.app, '/' + '/'.join(sc['prefix']), timeout=sc['lifetime'],
+            async for content in segment_fetcher(self.app, fetch_name, timeout=sc['lifetime'],
                                                  retry_times=sc['retry_times'], validator=validator,
                                                  must_be_fresh=sc.get('mbf', True)):
                 self.yields[fid].append(None if content is None else bytes(content))
@@ -401,7 +409,11 @@ def generate(rng, seed, tier='quick'):
             loss[key] = pat
     invalid = [k for k in range(max(nseg, 1)) if rng.random() < 0.06]
     extra = {}
-    if rng.random() < 0.3:
+    if nseg >= 2 and rng.random() < 0.08:
+        # the caller names one segment of the object instead of its prefix: the whole object is delivered all the same
+        extra['fetch_from_seg'] = rng.randrange(nseg)
+        discovery = extra['fetch_from_seg']
+    elif rng.random() < 0.3:
         # several consumers of the same object on one application
         nf = rng.choice([1, 2, 2, 3])
         extra['fetchers'] = [{'start_us': 0 if i == 0 or rng.random() < 0.5 else rng.choice([1, 50, 1000, life * 500, life * 1000])}
@@ -413,6 +425,13 @@ def generate(rng, seed, tier='quick'):
         extra['base_delay_us'] = rng.choice([0, 50, 1000, max(0, life * 1000 - 4000), max(0, life * 500)])
         if rng.random() < 0.6:
             loss, invalid = {}, []          # every reply in time: each fetch has to complete
+    sc = _scenario(rng, seed, extra, nseg, discovery, loss, invalid, R, life, keys)
+    if 'fetch_from_seg' in extra:
+        sc['discovery'] = extra['fetch_from_seg']      # the named segment is what answers first
+    return sc
+
+
+def _scenario(rng, seed, extra, nseg, discovery, loss, invalid, R, life, keys):
     return {'engine': 'segfetch', 'property': 'C19', 'seed': seed, **extra,
             'config': {'turn_cost_us': rng.choice([0, 0, 1]), 'wall_gran_us': 1000, 'debug_log': rng.random() < 0.1},
             'prefix': rng.choice([['obj'], ['a', 'obj'], ['x', 'y', 'z']]), 'version': rng.choice([None, 'v1', 'v1']),
